@@ -54,7 +54,7 @@ CHECKS = {'C01': {'note': 'trusted: rustc MIR + trait resolution, PANIC_API/SAFE
                  'exactly the permitted operands and yield the demanded class. Also: || and && are never folded through the strict or()/and(), the folded ternary selects by is_truthy and keeps a failed condition, '
                  'is_truthy has the documented per-variant table and the logical layer consults nothing else. Laziness observed through user call-counting functions is the same fact and is not run.'},
  'C09': {'note': 'trusted: rustc MIR; symex summaries; CelValue operations are the same resolved functions on both sides; loops unrolled to two / three elements',
-         'technique': 'symbolic execution: folder term vs symbolic VM value of the emitted template, per operator',
+         'technique': 'symbolic execution: folder term vs symbolic VM value of the emitted template, per operator; dominance / must-pass-through rules over MIR for the freeze guards (clock, embedded failure, run-dependence mark); reads_clock decision table on concrete programs',
          'text': 'Decides the points where folder and VM could disagree: for every operator template (relations incl. in, + - * / %, index, list and map literals) the term the compile-time evaluator computes on '
                  'constant operands is compared with the value obtained by interpreting the emitted code with the VM arm semantics (callee, operand order, entry order; both extracted from MIR by symbolic execution); a '
                  'node is constant only when all its operands are, otherwise every operand occurs exactly once in the code; call results are frozen only when reads_clock() is false and evaluation succeeded, reads_clock() '
